@@ -1004,7 +1004,9 @@ def coq_judge(cases, outs, results):
                 owner.append(i)
                 heavy.append(False)
         else:
-            lemmas.append(("Rabs (Phi_int %s - %s) <= %s" % (R(c["x"]), R(o["vals"][0]), R(TOL_P)), "phi_case."))
+            # an integral argument is written n/1: the enclosure tactic looks for a quotient as the upper limit of the integral
+            xr = R(c["x"]) if not float(c["x"]).is_integer() else "(%d/1)%%R" % int(c["x"])
+            lemmas.append(("Rabs (Phi_int %s - %s) <= %s" % (xr, R(o["vals"][0]), R(TOL_P)), "phi_case."))
             owner.append(i)
             heavy.append(False)
     ok = _prove(lemmas, heavy)
